@@ -752,3 +752,203 @@ Print Assumptions b64_sub_model.
 Print Assumptions b64_mul_model.
 Print Assumptions b64_div_model.
 Print Assumptions b64_sqrt_model.
+
+(* sqrt never leaves the normal range: the model holds for every binary64 input (NaN, infinities and negative inputs
+   have B2R (Bsqrt x) = 0 = sqrt (B2R x) with Coq's total sqrt) *)
+Theorem b64_sqrt_model_all : forall x : b64,
+  exists e, Rabs e <= u64 /\ B2R (Bsqrt mode_NE x) = sqrt (B2R x) * (1 + e).
+Proof.
+  intros x. destruct (Rle_or_lt (B2R x) 0) as [Hn|Hp].
+  - destruct (Bsqrt_correct 53 1024 _ _ mode_NE x) as (H1 & _).
+    assert (Hs : sqrt (B2R x) = 0).
+    { destruct Hn as [Hn|Hn]; [apply sqrt_neg_0; lra | rewrite Hn; apply sqrt_0]. }
+    exists 0; split; [rewrite Rabs_R0; apply bpow_ge_0|].
+    rewrite H1, Hs, round_0; [ring | auto with typeclass_instances].
+  - apply b64_sqrt_model.
+    assert (Hfs : is_finite_strict x = true).
+    { destruct x as [s|s| |s m e Hb]; cbn [B2R] in Hp; try lra. reflexivity. }
+    pose proof (abs_B2R_ge_emin 53 1024 x Hfs) as Hlo.
+    pose proof (abs_B2R_lt_emax 53 1024 x) as Hhi.
+    rewrite Rabs_pos_eq in Hlo, Hhi by lra.
+    change (SpecFloat.emin 53 1024) with (2 * -537)%Z in Hlo.
+    change 1024%Z with (2 * 512)%Z in Hhi.
+    rewrite Rabs_pos_eq by apply sqrt_ge_0.
+    split.
+    + apply Rle_trans with (bpow radix2 (-537)); [apply bpow_le; lia|].
+      rewrite <- (sqrt_bpow radix2 (-537)). apply sqrt_le_1_alt; exact Hlo.
+    + apply Rlt_le_trans with (bpow radix2 512); [|apply bpow_le; lia].
+      rewrite <- (sqrt_bpow radix2 512). apply sqrt_lt_1_alt; split; [lra | exact Hhi].
+Qed.
+
+(* the same statements for the SpecFloat operations that Num/P2PSF.v executes (bridges of Float/LocateProofs.v) *)
+Corollary sf64_add_model : forall x y : b64, is_finite x = true -> is_finite y = true ->
+  bpow radix2 (-1022) <= Rabs (B2R x + B2R y) < bpow radix2 1023 ->
+  exists e, Rabs e <= u64 /\
+    SF2R radix2 (SpecFloat.SFadd 53 1024 (B2SF x) (B2SF y)) = (SF2R radix2 (B2SF x) + SF2R radix2 (B2SF y)) * (1 + e).
+Proof.
+  intros x y Fx Fy Hr. rewrite <- sf_plus_bridge, !SF2R_B2SF. apply (b64_add_model x y Fx Fy Hr).
+Qed.
+
+Corollary sf64_sub_model : forall x y : b64, is_finite x = true -> is_finite y = true ->
+  bpow radix2 (-1022) <= Rabs (B2R x - B2R y) < bpow radix2 1023 ->
+  exists e, Rabs e <= u64 /\
+    SF2R radix2 (SpecFloat.SFsub 53 1024 (B2SF x) (B2SF y)) = (SF2R radix2 (B2SF x) - SF2R radix2 (B2SF y)) * (1 + e).
+Proof.
+  intros x y Fx Fy Hr. rewrite <- sf_minus_bridge, !SF2R_B2SF. apply (b64_sub_model x y Fx Fy Hr).
+Qed.
+
+Corollary sf64_mul_model : forall x y : b64, is_finite x = true -> is_finite y = true ->
+  bpow radix2 (-1022) <= Rabs (B2R x * B2R y) < bpow radix2 1023 ->
+  exists e, Rabs e <= u64 /\
+    SF2R radix2 (SpecFloat.SFmul 53 1024 (B2SF x) (B2SF y)) = (SF2R radix2 (B2SF x) * SF2R radix2 (B2SF y)) * (1 + e).
+Proof.
+  intros x y Fx Fy Hr. rewrite <- sf_mult_bridge, !SF2R_B2SF. apply (b64_mul_model x y Fx Fy Hr).
+Qed.
+
+Corollary sf64_div_model : forall x y : b64, is_finite x = true -> B2R y <> 0 ->
+  bpow radix2 (-1022) <= Rabs (B2R x / B2R y) < bpow radix2 1023 ->
+  exists e, Rabs e <= u64 /\
+    SF2R radix2 (SpecFloat.SFdiv 53 1024 (B2SF x) (B2SF y)) = (SF2R radix2 (B2SF x) / SF2R radix2 (B2SF y)) * (1 + e).
+Proof.
+  intros x y Fx Hy Hr. rewrite <- sf_div_bridge, !SF2R_B2SF. apply (b64_div_model x y Fx Hy Hr).
+Qed.
+
+(* ---------------------------------------------------------------------------------------------------------------- *)
+(* Composition.  g64_ops rounds to nearest-even binary64 whenever the exact result is in the normal range and is
+   exact otherwise; it satisfies the standard model with u = 2^-53 on ALL reals, so MAIN A and MAIN B apply to it,
+   and it coincides with the IEEE operations on every operation whose exact result is in the normal range
+   (b64_*_g64).  Hence the bounds hold for an IEEE evaluation all of whose intermediate exact results are normal;
+   those range side conditions are NOT discharged here. *)
+
+Lemma u64_range : 0 <= u64 <= 1 / 1024.
+Proof.
+  split; [apply bpow_ge_0|].
+  replace (1 / 1024) with (bpow radix2 (-10)) by (simpl; lra). apply bpow_le; lia.
+Qed.
+
+Definition grnd (r : R) : R :=
+  if Rle_dec (bpow radix2 (-1022)) (Rabs r) then
+    if Rlt_dec (Rabs r) (bpow radix2 1023) then rnd64 r else r
+  else r.
+
+Lemma grnd_model : forall r, exists e, Rabs e <= u64 /\ grnd r = r * (1 + e).
+Proof.
+  intros r. unfold grnd.
+  assert (H0 : exists e, Rabs e <= u64 /\ r = r * (1 + e)).
+  { exists 0; split; [rewrite Rabs_R0; apply bpow_ge_0 | ring]. }
+  destruct (Rle_dec _ _) as [H1|H1]; [|exact H0].
+  destruct (Rlt_dec _ _) as [H2|H2]; [|exact H0].
+  apply (rnd64_model r (conj H1 H2)).
+Qed.
+
+Lemma grnd_normal : forall r, bpow radix2 (-1022) <= Rabs r < bpow radix2 1023 -> grnd r = rnd64 r.
+Proof.
+  intros r [H1 H2]. unfold grnd.
+  destruct (Rle_dec _ _) as [H1'|H1']; [|contradiction].
+  destruct (Rlt_dec _ _) as [H2'|H2']; [reflexivity|contradiction].
+Qed.
+
+Definition g64_ops : ops R :=
+  {| o_add := fun a b => grnd (a + b); o_sub := fun a b => grnd (a - b); o_mul := fun a b => grnd (a * b);
+     o_div := fun a b => grnd (a / b); o_sqrt := fun a => grnd (sqrt a); o_zero := 0; o_one := 1 |}.
+
+Theorem g64_std_model : std_model u64 g64_ops.
+Proof.
+  unfold std_model; cbn [g64_ops o_add o_sub o_mul o_div o_sqrt o_zero o_one].
+  repeat split; intros; apply grnd_model.
+Qed.
+
+Lemma b64_add_g64 : forall x y : b64, is_finite x = true -> is_finite y = true ->
+  bpow radix2 (-1022) <= Rabs (B2R x + B2R y) < bpow radix2 1023 ->
+  B2R (Bplus mode_NE x y) = o_add g64_ops (B2R x) (B2R y).
+Proof.
+  intros x y Fx Fy Hr. cbn [g64_ops o_add]. rewrite (grnd_normal _ Hr).
+  destruct (rnd64_model _ Hr) as [Hov _].
+  generalize (Bplus_correct 53 1024 _ _ mode_NE x y Fx Fy).
+  change (round radix2 (SpecFloat.fexp 53 1024) (round_mode mode_NE)) with rnd64.
+  rewrite Rlt_bool_true by exact Hov. intros (H1 & _). exact H1.
+Qed.
+
+Lemma b64_sub_g64 : forall x y : b64, is_finite x = true -> is_finite y = true ->
+  bpow radix2 (-1022) <= Rabs (B2R x - B2R y) < bpow radix2 1023 ->
+  B2R (Bminus mode_NE x y) = o_sub g64_ops (B2R x) (B2R y).
+Proof.
+  intros x y Fx Fy Hr. cbn [g64_ops o_sub]. rewrite (grnd_normal _ Hr).
+  destruct (rnd64_model _ Hr) as [Hov _].
+  generalize (Bminus_correct 53 1024 _ _ mode_NE x y Fx Fy).
+  change (round radix2 (SpecFloat.fexp 53 1024) (round_mode mode_NE)) with rnd64.
+  rewrite Rlt_bool_true by exact Hov. intros (H1 & _). exact H1.
+Qed.
+
+Lemma b64_mul_g64 : forall x y : b64,
+  bpow radix2 (-1022) <= Rabs (B2R x * B2R y) < bpow radix2 1023 ->
+  B2R (Bmult mode_NE x y) = o_mul g64_ops (B2R x) (B2R y).
+Proof.
+  intros x y Hr. cbn [g64_ops o_mul]. rewrite (grnd_normal _ Hr).
+  destruct (rnd64_model _ Hr) as [Hov _].
+  generalize (Bmult_correct 53 1024 _ _ mode_NE x y).
+  change (round radix2 (SpecFloat.fexp 53 1024) (round_mode mode_NE)) with rnd64.
+  rewrite Rlt_bool_true by exact Hov. intros (H1 & _). exact H1.
+Qed.
+
+Lemma b64_div_g64 : forall x y : b64, B2R y <> 0 ->
+  bpow radix2 (-1022) <= Rabs (B2R x / B2R y) < bpow radix2 1023 ->
+  B2R (Bdiv mode_NE x y) = o_div g64_ops (B2R x) (B2R y).
+Proof.
+  intros x y Hy Hr. cbn [g64_ops o_div]. rewrite (grnd_normal _ Hr).
+  destruct (rnd64_model _ Hr) as [Hov _].
+  generalize (Bdiv_correct 53 1024 _ _ mode_NE x y Hy).
+  change (round radix2 (SpecFloat.fexp 53 1024) (round_mode mode_NE)) with rnd64.
+  rewrite Rlt_bool_true by exact Hov. intros (H1 & _). exact H1.
+Qed.
+
+Lemma b64_sqrt_g64 : forall x : b64, 0 < B2R x -> B2R (Bsqrt mode_NE x) = o_sqrt g64_ops (B2R x).
+Proof.
+  intros x Hp. cbn [g64_ops o_sqrt].
+  destruct (Bsqrt_correct 53 1024 _ _ mode_NE x) as (H1 & _).
+  change (round radix2 (SpecFloat.fexp 53 1024) (round_mode mode_NE)) with rnd64 in H1.
+  rewrite H1. symmetry. apply grnd_normal.
+  assert (Hfs : is_finite_strict x = true).
+  { destruct x as [s|s| |s m e Hb]; cbn [B2R] in Hp; try lra. reflexivity. }
+  pose proof (abs_B2R_ge_emin 53 1024 x Hfs) as Hlo.
+  pose proof (abs_B2R_lt_emax 53 1024 x) as Hhi.
+  rewrite Rabs_pos_eq in Hlo, Hhi by lra.
+  change (SpecFloat.emin 53 1024) with (2 * -537)%Z in Hlo.
+  change 1024%Z with (2 * 512)%Z in Hhi.
+  rewrite Rabs_pos_eq by apply sqrt_ge_0.
+  split.
+  - apply Rle_trans with (bpow radix2 (-537)); [apply bpow_le; lia|].
+    rewrite <- (sqrt_bpow radix2 (-537)). apply sqrt_le_1_alt; exact Hlo.
+  - apply Rlt_le_trans with (bpow radix2 512); [|apply bpow_le; lia].
+    rewrite <- (sqrt_bpow radix2 512). apply sqrt_lt_1_alt; split; [lra | exact Hhi].
+Qed.
+
+(* MAIN A and MAIN B instantiated at binary64 round-to-nearest-even (u = 2^-53) *)
+Corollary g64_pair_error : forall s t, apart s t ->
+  let '(fx, fy, fz, inv) := pair R g64_ops s t in
+  Rabs (inv - / rdist s t) <= 5 * u64 * / rdist s t /\
+  Rabs (fx - f_x _ (contrib s t)) <= 16 * u64 * Rabs (f_x _ (contrib s t)) /\
+  Rabs (fy - f_y _ (contrib s t)) <= 16 * u64 * Rabs (f_y _ (contrib s t)) /\
+  Rabs (fz - f_z _ (contrib s t)) <= 16 * u64 * Rabs (f_z _ (contrib s t)).
+Proof.
+  intros s t Hap.
+  pose proof (pair_potential_error u64 u64_range g64_ops g64_std_model s t Hap) as H1.
+  pose proof (pair_force_error u64 u64_range g64_ops g64_std_model s t Hap) as H2.
+  destruct (pair R g64_ops s t) as [[[fx fy] fz] inv]. split; [exact H1 | exact H2].
+Qed.
+
+Corollary g64_remote_potential_error : forall srcs t, Forall (fun s => apart s t) srcs ->
+  let n := INR (length srcs) in
+  (n + 6) * (n + 7) * u64 <= 1 ->
+  Rabs (f_p _ (remote_one R g64_ops srcs t (rhs0 R g64_ops)) - Rsum (map (fun s => p_v _ s / rdist s t) srcs))
+  <= ((n + 7) * u64) * Rsum (map (fun s => Rabs (p_v _ s) / rdist s t) srcs).
+Proof. intros srcs t HF. apply (remote_potential_error u64 u64_range g64_ops g64_std_model srcs t HF). Qed.
+
+Print Assumptions b64_sqrt_model_all.
+Print Assumptions sf64_add_model.
+Print Assumptions sf64_sub_model.
+Print Assumptions sf64_mul_model.
+Print Assumptions sf64_div_model.
+Print Assumptions g64_std_model.
+Print Assumptions g64_pair_error.
+Print Assumptions g64_remote_potential_error.
